@@ -304,6 +304,9 @@ class _Expr(ast.NodeTransformer):
 
     def visit_Compare(self, node):
         self.generic_visit(node)
+        if len(node.ops) == 1 and isinstance(node.left, ast.Constant) and isinstance(node.comparators[0], ast.Constant) \
+                and isinstance(node.ops[0], (ast.Is, ast.IsNot, ast.Eq, ast.NotEq)):
+            return _ConstFold().visit_Compare(node)
         # x in [a, b] -> x in (a, b)
         for i, (op, c) in enumerate(zip(node.ops, node.comparators)):
             if isinstance(op, (ast.In, ast.NotIn)) and isinstance(c, ast.List):
@@ -331,6 +334,8 @@ class _Expr(ast.NodeTransformer):
 
     def visit_IfExp(self, node):
         self.generic_visit(node)
+        if isinstance(node.test, ast.Constant):
+            return node.body if node.test.value else node.orelse
         if isinstance(node.test, ast.UnaryOp) and isinstance(node.test.op, ast.Not):
             node = ast.IfExp(test=node.test.operand, body=node.orelse, orelse=node.body)
         # x if x else d  ->  x or d ;   d if x else x  ->  x and d        (x evaluated once either way when it is pure)
@@ -608,6 +613,7 @@ def _norm_block(stmts, fn_locals):
     out = _try_hoist(out)
     out = _result_var(out)
     out = _count_loops(out, fn_locals)
+    out = _countdown_loops(out, fn_locals)
     out = _loops_to_builtins(out)
     out = _inline_temps(out, fn_locals)
     out = _return_ifexp(out)
@@ -749,6 +755,8 @@ def _norm_stmt(st, fn_locals):
         body = _norm_block(st.body, fn_locals)
         orelse = _norm_block(st.orelse, fn_locals)
         test = _strip_bool(st.test)
+        if isinstance(test, ast.Constant):
+            return (body if test.value else orelse) or None
         if not body and not orelse:
             return ast.Expr(value=test) if not _simple_pure(test) else None
         m = _merge_branches(test, body, orelse)
@@ -944,6 +952,29 @@ def _count_loops(stmts, later_reads):
     return out
 
 
+def _countdown_loops(stmts, counts):
+    """i = N ; while i: BODY ; i -= 1      ->      for i in range(N): BODY        (N an int literal or visibly an int; i not used in BODY nor later)"""
+    out = list(stmts)
+    k = 0
+    while k + 1 < len(out):
+        a, w = out[k], out[k + 1]
+        if isinstance(a, ast.Assign) and len(a.targets) == 1 and isinstance(a.targets[0], ast.Name) and isinstance(w, ast.While) and not w.orelse \
+                and isinstance(w.test, ast.Name) and w.test.id == a.targets[0].id and w.body and isinstance(w.body[-1], ast.AugAssign) \
+                and isinstance(w.body[-1].op, ast.Sub) and isinstance(w.body[-1].target, ast.Name) and w.body[-1].target.id == w.test.id \
+                and isinstance(w.body[-1].value, ast.Constant) and w.body[-1].value.value == 1 and _intlike(a.value) and _simple_pure(a.value):
+            i = w.test.id
+            body = w.body[:-1]
+            info = counts.get(i) if isinstance(counts, dict) else None
+            used = any(isinstance(n, ast.Name) and n.id == i for st in body for n in ast.walk(st))
+            has_continue = any(isinstance(n, ast.Continue) for st in body for n in ast.walk(st))
+            written = {n.id for st in body for n in ast.walk(st) if isinstance(n, ast.Name) and isinstance(n.ctx, (ast.Store, ast.Del))}
+            if body and not used and not has_continue and info is not None and info[1] == 1 and not (written & _names_loaded(a.value)):
+                out[k:k + 2] = [ast.For(target=ast.Name(id=i, ctx=ast.Store()), iter=ast.Call(func=ast.Name(id="range", ctx=ast.Load()), args=[a.value], keywords=[]), body=body, orelse=[])]
+                continue
+        k += 1
+    return out
+
+
 def _loops_to_builtins(stmts):
     out = list(stmts)
     i = 0
@@ -1115,7 +1146,7 @@ def _propagate(fn):
                             _RenameAll({t: src}).visit(b)
                         changed = True
                         break
-            if counts[t][0] == 1 and _simple_pure(v) and not later_store and not isinstance(v, (ast.Constant,)) and _stable(v, attr_stores, params) and _size(v) <= 12 and t not in _captured(fn):
+            if counts[t][0] == 1 and _simple_pure(v) and not later_store and (_stable(v, attr_stores, params) or (isinstance(v, ast.Constant) and (v.value is None or isinstance(v.value, (bool, int))))) and _size(v) <= 12 and t not in _captured(fn):
                 loads = [n for n in order if isinstance(n, ast.Name) and isinstance(n.ctx, ast.Load) and n.id == t]
                 if loads and all(pos[id(n)] > here for n in loads):
                     _remove_stmt(fn, st)
@@ -1147,8 +1178,9 @@ def _stable(e, attr_stores, params=("self", "cls")):
             parts = [sl.lower, sl.upper, sl.step] if isinstance(sl, ast.Slice) else [sl]
             if not all(x is None or (isinstance(x, ast.Constant) and isinstance(x.value, int)) or (isinstance(x, ast.UnaryOp) and isinstance(x.operand, ast.Constant)) for x in parts):
                 return False
-        elif isinstance(n, (ast.BinOp, ast.Compare, ast.BoolOp, ast.IfExp)):
-            return False
+        elif isinstance(n, (ast.BinOp, ast.Compare, ast.BoolOp, ast.IfExp, ast.List, ast.Dict, ast.Set, ast.ListComp, ast.SetComp, ast.DictComp, ast.GeneratorExp,
+                            ast.JoinedStr, ast.Starred)):
+            return False        # a display builds a new (mutable) object on every evaluation
     return True
 
 
@@ -2508,6 +2540,131 @@ def _assign_equiv(st, old, tree, ref):
     return False
 
 
+class _ConstFold(ast.NodeTransformer):
+    """fold what becomes constant once a parameter is replaced by its default: comparisons with None / constants, not, and / or, conditional
+    expressions, and `if` statements with a constant test"""
+    def visit_Compare(self, node):
+        self.generic_visit(node)
+        if len(node.ops) == 1 and isinstance(node.left, ast.Constant) and isinstance(node.comparators[0], ast.Constant):
+            a, b, o = node.left.value, node.comparators[0].value, node.ops[0]
+            if isinstance(o, ast.Is):
+                return ast.Constant(a is b if (a is None or b is None or isinstance(a, bool) or isinstance(b, bool)) else a == b)
+            if isinstance(o, ast.IsNot):
+                return ast.Constant(not (a is b if (a is None or b is None or isinstance(a, bool) or isinstance(b, bool)) else a == b))
+            if isinstance(o, ast.Eq):
+                return ast.Constant(a == b)
+            if isinstance(o, ast.NotEq):
+                return ast.Constant(a != b)
+        return node
+
+    def visit_UnaryOp(self, node):
+        self.generic_visit(node)
+        if isinstance(node.op, ast.Not) and isinstance(node.operand, ast.Constant):
+            return ast.Constant(not node.operand.value)
+        return node
+
+    def visit_BoolOp(self, node):
+        self.generic_visit(node)
+        vals = []
+        for i, v in enumerate(node.values):
+            last = i == len(node.values) - 1
+            if isinstance(v, ast.Constant) and not last:
+                truthy = bool(v.value)
+                if isinstance(node.op, ast.And):
+                    if truthy:
+                        continue            # True and X  ->  X
+                    vals.append(v)
+                    break                   # False and X -> False
+                if truthy:
+                    vals.append(v)
+                    break                   # True or X -> True
+                continue                    # False or X -> X
+            vals.append(v)
+        if len(vals) == 1:
+            return vals[0]
+        node.values = vals
+        return node
+
+    def visit_IfExp(self, node):
+        self.generic_visit(node)
+        if isinstance(node.test, ast.Constant):
+            return node.body if node.test.value else node.orelse
+        return node
+
+    def visit_If(self, node):
+        self.generic_visit(node)
+        if isinstance(node.test, ast.Constant):
+            return (node.body if node.test.value else node.orelse) or [ast.Pass()]
+        return node
+
+
+def _specialise_new_params(new, old):
+    """`new` has the parameters of `old` plus optional ones with constant defaults (a backward-compatible extension): the function existing
+    callers run is `new` with those parameters fixed to their defaults.  Returns that specialised function, or None."""
+    if not isinstance(new, (ast.FunctionDef, ast.AsyncFunctionDef)) or not isinstance(old, (ast.FunctionDef, ast.AsyncFunctionDef)):
+        return None
+    na, oa = new.args, old.args
+
+    def names(a):
+        return [x.arg for x in a.posonlyargs + a.args], [x.arg for x in a.kwonlyargs]
+    npos, nkw = names(na)
+    opos, okw = names(oa)
+    if npos[:len(opos)] != opos or (na.vararg is None) != (oa.vararg is None) or (na.kwarg is None) != (oa.kwarg is None):
+        return None
+    extra_pos = npos[len(opos):]
+    extra_kw = [x for x in nkw if x not in okw]
+    if [x for x in nkw if x in okw] != okw or (not extra_pos and not extra_kw):
+        return None
+    defaults = {}
+    pos_defaults = dict(zip(npos[len(npos) - len(na.defaults):], na.defaults))
+    for p_ in extra_pos:
+        if p_ not in pos_defaults:
+            return None
+        defaults[p_] = pos_defaults[p_]
+    for a_, d in zip(na.kwonlyargs, na.kw_defaults):
+        if a_.arg in extra_kw:
+            if d is None:
+                return None
+            defaults[a_.arg] = d
+    def plain(d):
+        if isinstance(d, ast.Constant) or isinstance(d, ast.Name) or (isinstance(d, ast.Tuple) and not d.elts):
+            return True
+        return isinstance(d, ast.Attribute) and plain(d.value)      # a module constant / class such as exc.PasslibHashWarning
+    if not all(plain(d) for d in defaults.values()):
+        return None
+    sp = copy.deepcopy(new)
+    # an extra parameter that the body re-assigns becomes a local that starts out as its default
+    rebound = {n.id for n in ast.walk(sp) if isinstance(n, ast.Name) and isinstance(n.ctx, (ast.Store, ast.Del)) and n.id in defaults}
+    pre = [ast.Assign(targets=[ast.Name(id=nm, ctx=ast.Store())], value=copy.deepcopy(defaults[nm])) for nm in sorted(rebound)]
+    defaults = {k_: v for k_, v in defaults.items() if k_ not in rebound}
+    keep_pos = len(opos)
+    all_pos = sp.args.posonlyargs + sp.args.args
+    n_def_drop = len(extra_pos)
+    sp.args.args = [a_ for a_ in sp.args.args if a_.arg not in extra_pos]
+    if n_def_drop:
+        sp.args.defaults = sp.args.defaults[:len(sp.args.defaults) - n_def_drop]
+    kws = [(a_, d) for a_, d in zip(sp.args.kwonlyargs, sp.args.kw_defaults) if a_.arg not in extra_kw]
+    sp.args.kwonlyargs = [a_ for a_, _ in kws]
+    sp.args.kw_defaults = [d for _, d in kws]
+    doc = [st for st in sp.body[:1] if _is_docstring(st)]
+    sp.body = doc + pre + [_Subst(defaults).visit(st) for st in sp.body[len(doc):]]
+    sp = _ConstFold().visit(sp)
+    flat = []
+    for st in sp.body:
+        flat.extend(st if isinstance(st, list) else [st])
+    sp.body = flat or [ast.Pass()]
+    # nested statement lists may now contain lists from visit_If: flatten them
+    for n in ast.walk(sp):
+        for fld in ("body", "orelse", "finalbody"):
+            blk = getattr(n, fld, None)
+            if isinstance(blk, list) and any(isinstance(x, list) for x in blk):
+                out = []
+                for x in blk:
+                    out.extend(x if isinstance(x, list) else [x])
+                setattr(n, fld, out)
+    return sp
+
+
 def substitute(tree, ref, stats=None):
     """replace every item of `tree` that is equivalent (equal normal forms) to its counterpart in `ref` by a copy of the counterpart.
     Returns (number of items that differ textually, number proven equivalent, [labels of the unproven ones])"""
@@ -2552,6 +2709,13 @@ def substitute(tree, ref, stats=None):
                     same = False
                 if not same and k[0] == "assign":
                     same = _assign_equiv(st, old, tree, ref)
+                if not same and k[0] == "def":
+                    sp = _specialise_new_params(st, old)
+                    if sp is not None:
+                        try:
+                            same = normal_form(sp, hn, in_class, single_base) == normal_form(old, ho, in_class, single_base)
+                        except RecursionError:
+                            same = False
                 if same:
                     proven += 1
                     rep = copy.deepcopy(old)
